@@ -152,6 +152,9 @@ class StageSpec(Spec):
         elif r == "VND":
             if t[1] != ("in", ("hs", U.STALL)): raise Violation("fresh:unclaimed-request-not-stalled", dict(transcript=t))
         elif r == "SDSC":
+            # the status stage of a transfer with an OUT data stage is an IN: it must be answered (ZLP, or STALL as here)
+            if t[-1][0] != "in-status" or t[-1][1] is None:
+                raise Violation("fresh:status-in-after-out-data-stage-unanswered", dict(transcript=t))
             if any(k and k[0] == "data" and k[2] for n, k in t[1:]) or t[-1][1] == ("data", U.DATA1, ()):
                 raise Violation("fresh:unsupported-out-request-answered", dict(transcript=t))
 
